@@ -399,10 +399,11 @@ func (t *Table) BoolResult(i int) (result TT, returns TT) {
 		if !ok || len(b.Instrs) == 0 {
 			continue
 		}
-		if ret, ok := b.Instrs[len(b.Instrs)-1].(*ssa.Return); ok {
+		if ret, ok := b.Instrs[len(b.Instrs)-1].(*ssa.Return); ok && !IsRecoverBlock(b) {
 			returns = returns.Or(c)
-			if i < len(ret.Results) && isBool(ret.Results[i].Type()) {
-				result = result.Or(c.And(t.valOf(ret.Results[i])))
+			res := Results(ret)
+			if i < len(res) && isBool(res[i].Type()) {
+				result = result.Or(c.And(t.valOf(res[i])))
 			}
 		}
 	}
@@ -497,4 +498,67 @@ func (t *Table) Render(tt TT, max int) string {
 		}
 	}
 	return strings.Join(rows, " | ")
+}
+
+// ReturnClasses groups the returns of the function by classify and gives, per
+// class, the condition under which a return of that class executes.
+func (t *Table) ReturnClasses(classify func(*ssa.Return) string) map[string]TT {
+	out := map[string]TT{}
+	for _, b := range t.Fn.Blocks {
+		c, ok := t.cond[b]
+		if !ok || len(b.Instrs) == 0 {
+			continue
+		}
+		if ret, ok := b.Instrs[len(b.Instrs)-1].(*ssa.Return); ok && !IsRecoverBlock(b) {
+			k := classify(ret)
+			if cur, ok := out[k]; ok {
+				out[k] = cur.Or(c)
+			} else {
+				out[k] = c
+			}
+		}
+	}
+	return out
+}
+
+// CompareClasses checks that on every row exactly the class named by spec
+// returns. spec may return "" for rows where the function may do anything.
+func (t *Table) CompareClasses(classes map[string]TT, b *Binding, spec func(v map[string]bool) string) (ok bool, diff string, rows int) {
+	total := 1 << uint(t.n)
+	names := make([]string, 0, len(classes))
+	for k := range classes {
+		names = append(names, k)
+	}
+	sort.Strings(names)
+	for r := 0; r < total; r++ {
+		v := map[string]bool{}
+		for i := 0; i < t.n; i++ {
+			if b.Names[i] != "" {
+				v[b.Names[i]] = r>>uint(i)&1 == 1
+			}
+		}
+		want := spec(v)
+		if want == "" {
+			continue
+		}
+		rows++
+		var got []string
+		for _, k := range names {
+			if classes[k].Row(r) {
+				got = append(got, k)
+			}
+		}
+		if len(got) != 1 || got[0] != want {
+			var parts []string
+			for i := 0; i < t.n; i++ {
+				nm := b.Names[i]
+				if nm == "" {
+					nm = "«" + t.Atoms[i] + "»"
+				}
+				parts = append(parts, fmt.Sprintf("%s=%v", nm, r>>uint(i)&1 == 1))
+			}
+			return false, fmt.Sprintf("row {%s}: code returns %v, specification %q", strings.Join(parts, " "), got, want), rows
+		}
+	}
+	return true, "", rows
 }
